@@ -85,16 +85,24 @@ func widthBytes(c *gal.Ctx, p registers.Register, n int, style int) []byte {
 	return b
 }
 
-// the lengths that matter for a register of width w: none, every shorter one, the width,
-// a few longer ones
+// the lengths tried for a register of width w: EVERY length 0..sweepMax (the domain of
+// ValueFromBytes' dispatch is finite: 26 identifiers, and beyond the widest register every
+// length behaves alike), twice the width, a longer one
 func widthLengths(c *gal.Ctx, w int) []int {
 	var ls []int
-	for l := 0; l <= w+2; l++ {
+	for l := 0; l <= sweepMax; l++ { // exhaustive: every length from none to beyond the widest register
 		ls = append(ls, l)
 	}
-	ls = append(ls, 2*w, 2*w+1, w+3+c.Rng.Intn(40))
-	return ls
+	for _, l := range []int{2 * w, 2*w + 1} {
+		if l > sweepMax {
+			ls = append(ls, l)
+		}
+	}
+	return append(ls, sweepMax+1+c.Rng.Intn(40))
 }
+
+// every byte length 0..sweepMax is tried for every registered identifier and for the unknown ones
+const sweepMax = 40
 
 func describeBytes(p registers.Register, b []byte) map[string]interface{} {
 	d := map[string]interface{}{"id": string(p.ID()), "bytes": hex.EncodeToString(b), "bytes_len": len(b), "serialised_width": serWidth(p)}
@@ -108,6 +116,10 @@ func describeBytes(p registers.Register, b []byte) map[string]interface{} {
 
 func runFromBytesWidths(c *gal.Ctx, p registers.Register) {
 	w := serWidth(p)
+	// the identifier comes from the type's ID() method and must be one the registry knows
+	if z, err := registers.New(p.ID(), nil); err != nil || z == nil || reflect.TypeOf(z) != reflect.TypeOf(p) {
+		c.OracleFail(-1, fmt.Sprintf("register type %T (ID %s) is not what the registry holds under its ID: %v", p, p.ID(), err), "pkg/registers/registry.go", map[string]interface{}{"id": string(p.ID())})
+	}
 	type inp struct {
 		b   []byte
 		how string
@@ -175,8 +187,11 @@ func judgeFromBytes(c *gal.Ctx, idx int, p registers.Register, b []byte, panicke
 }
 
 func runFromBytesUnknown(c *gal.Ctx) {
-	for _, id := range []string{"BOGUS.REGISTER", "", "txt.ests", "TXT.ESTS "} {
-		for _, l := range []int{0, 1, 4, 8, 32} {
+	for _, id := range []string{"BOGUS.REGISTER", "", "txt.ests", "TXT.ESTS ", "TXT.PUBLIC.KEY\x00", "IA32_MTRRCA", "TXT.E2STS"} {
+		if _, err := registers.New(registers.RegisterID(id), nil); err == nil {
+			continue // registered after all: swept with the known ones
+		}
+		for l := 0; l <= sweepMax; l++ {
 			b := make([]byte, l)
 			c.Rng.Read(b)
 			d := map[string]interface{}{"id": id, "bytes": hex.EncodeToString(b)}
